@@ -1,8 +1,53 @@
+import Corro.Model.Members
 import Driver.Util
-/-! Driver stub for C18: not built yet. -/
+/-! Line-protocol driver for C18 (membership view).
+
+ops:  `up <actor> <addr> <ts> <cluster>` · `down <actor> <addr> <ts> <cluster>` ·
+      `rtt <addr> <millis>` · `ring0 <cluster>`
+answer after every op: `<ret> | <states> | <by_addr> | <rtts>` with
+  ret     `new`/`upd`/`ign` · `removed=true`/`removed=false` · `ok` · `r0=<addr list>`
+  states  `actor:addr:ts:cluster:ring` (ring `n` = None), sorted by actor
+  by_addr `addr>actor`, sorted by addr
+  rtts    `addr:len:sum`, sorted by addr -/
 namespace Driver.C18
-abbrev State := Unit
-def init : State := ()
-def step (st : State) (_toks : List String) : Option (State × String) := some (st, "bad-op")
+open Corro.Members
+
+def showRing : Option Nat → String
+  | none => "n"
+  | some r => toString r
+
+def showState (m : Members) : String :=
+  showList (m.states.map fun kv =>
+      s!"{kv.1}:{kv.2.addr}:{kv.2.ts}:{kv.2.cluster}:{showRing kv.2.ring}") ++ " | " ++
+  showList (m.byAddr.map fun kv => s!"{kv.1}>{kv.2}") ++ " | " ++
+  showList (m.rtts.map fun kv => s!"{kv.1}:{kv.2.length}:{kv.2.sum}")
+
+def showAdd : AddResult → String
+  | .newMember => "new"
+  | .updated => "upd"
+  | .ignored => "ign"
+
+abbrev State := Members
+def init : State := Corro.Members.init
+
+def step (m : State) (toks : List String) : Option (State × String) :=
+  match toks with
+  | ["up", id, addr, ts, cl] => do
+    let id ← id.toNat?; let addr ← addr.toNat?; let ts ← ts.toNat?; let cl ← cl.toNat?
+    let (m', r) := addMember m id addr ts cl
+    pure (m', showAdd r ++ " | " ++ showState m')
+  | ["down", id, addr, ts, cl] => do
+    let id ← id.toNat?; let _ ← addr.toNat?; let ts ← ts.toNat?; let _ ← cl.toNat?
+    let (m', r) := removeMember m id ts
+    pure (m', s!"removed={r} | " ++ showState m')
+  | ["rtt", addr, ms] => do
+    let addr ← addr.toNat?; let ms ← ms.toNat?
+    let m' := addRtt m addr ms
+    pure (m', "ok | " ++ showState m')
+  | ["ring0", cl] => do
+    let cl ← cl.toNat?
+    pure (m, "r0=" ++ showNats (ring0 m cl) ++ " | " ++ showState m)
+  | _ => none
+
 end Driver.C18
 def main : IO Unit := Driver.runLoop Driver.C18.init Driver.C18.step
